@@ -204,6 +204,23 @@ func checkFaultFree(op txm.Op, r result) (problems []string) {
 			add("%s(User %q) fired before the statement", e.Hook, e.Name)
 		}
 	}
+	// documented pipeline: before-hooks, (belongs-to saves), the statement, has-one / has-many /
+	// many-to-many saves with the children's own hooks, then the parent's after-hooks
+	firstParentAfter, lastChild := -1, -1
+	for i, e := range r.log {
+		if e.Type == "User" && phaseOf(e.Hook) == 2 && firstParentAfter == -1 {
+			firstParentAfter = i
+		}
+		if e.Type == "Order" {
+			lastChild = i
+			if len(sm) > 0 && e.Mark <= sm[0] {
+				add("%s(Order %q) fired before the parent's statement", e.Hook, e.Name)
+			}
+		}
+	}
+	if firstParentAfter != -1 && lastChild > firstParentAfter && op.Kind != "CreateInBatches" {
+		add("the parent's after-hooks started (position %d) before the associated records were saved (last child hook at %d)", firstParentAfter, lastChild)
+	}
 	// slice order
 	var users []string
 	for _, u := range op.Records() {
